@@ -54,21 +54,21 @@ def mc_for(pid, tier):
 def shards_general(tier, scale=1.0):
     if tier == "quick":
         base = [("random", 4000), ("random", 4000), ("contact", 4000), ("contact", 4000), ("contact", 4000),
-                ("diagrams", 4000), ("diagrams", 4000), ("setup", 3000), ("shuffle", 3000), ("shuffle", 3000)]
+                ("diagrams", 4000), ("diagrams", 3000), ("setup", 3000), ("shuffle", 3000), ("confined", 4000), ("confined", 4000)]
     else:
         base = []
         for _ in range(8):
             base += [("random", 12000), ("contact", 12000), ("contact", 12000), ("diagrams", 8000), ("setup", 6000),
-                     ("shuffle", 8000), ("random", 12000)]
+                     ("shuffle", 8000), ("confined", 12000)]
     return [(d, int(n * scale)) for d, n in base]
 
 
 def shards_repetition(tier):
     if tier == "quick":
-        return [("shuffle", 4000)] * 7 + [("contact", 3000), ("random", 3000), ("diagrams", 3000), ("setup", 2000)]
+        return [("confined", 5000)] * 8 + [("shuffle", 4000)] * 2 + [("contact", 3000), ("random", 3000), ("diagrams", 2000), ("setup", 2000)]
     out = []
     for _ in range(8):
-        out += [("shuffle", 10000)] * 5 + [("contact", 10000), ("random", 10000), ("diagrams", 6000)]
+        out += [("confined", 12000)] * 4 + [("shuffle", 10000)] + [("contact", 10000), ("random", 10000), ("diagrams", 6000)]
     return out
 
 
@@ -120,6 +120,102 @@ SHARDS = {
 }
 
 
+# ---------------------------------------------------------------------------------------
+# spec -> implementation (G): TLC explores the specification on the real geometry from roots written
+# by `genroots`, emits one path per distinct state; `replay` drives the engine along them
+
+GEN_PLAN = {
+    # kind: (quick (n roots, cfg), thorough (n roots, cfg), probe mode, replay shards)
+    "scenarios": ((1, "mc/MC_gen_t0.cfg"), (0, "mc/MC_gen_t0.cfg"), 2),
+    "patterns": ((16, "mc/MC_gen.cfg"), (260, "mc/MC_gen.cfg"), 3),
+    "diagrams": ((5, "mc/MC_gen.cfg"), (60, "mc/MC_gen.cfg"), 3),
+}
+GEN_KINDS = {
+    "default": ["scenarios", "patterns", "diagrams"],
+    "C05": ["scenarios"], "C06": ["scenarios"], "C07": ["scenarios"], "C03": ["scenarios", "diagrams"],
+    "C09": [], "C08": ["scenarios", "diagrams"], "C14": ["scenarios", "diagrams"], "C15": ["diagrams"],
+}
+
+
+def gen_generate(kind, tier, seed, workdir, bindir):
+    """genroots + TLC exploration; returns (roots file, tlc output file, mc result)."""
+    import vcheck
+    from vcheck import sh
+    (nq, cfgq), (nt, cfgt), _mode = GEN_PLAN[kind]
+    n, cfg = (nq, cfgq) if tier == "quick" else (nt, cfgt)
+    roots = os.path.join(workdir, "roots_%s.ndjson" % kind)
+    rc, o = sh([os.path.join(bindir, "genroots"), kind, str(seed), str(n), roots], 300, env={"VERIF_REPO": vcheck.REPO})
+    if rc != 0:
+        raise ToolError("genroots %s failed: %s" % (kind, o[-1000:]))
+    res = tlc_mc("mc/MC_gen.tla", cfg, workers=6 if tier == "quick" else 12, timeout=3000, env={"ROOTS": roots},
+                 name="gen_" + kind, xmx="16g")
+    expect_mc_ok(res)
+    outp = os.path.join(workdir, "gen_%s.txt" % kind)
+    with open(outp, "w") as f:
+        f.write("\n".join(l for l in res["out"].splitlines() if l.startswith('"P ')))
+    return roots, outp, res
+
+
+def gen_stage(pid, tier, seed, workdir, bindir, prop=None):
+    """Returns (validation results, trace paths, mc results, stats). Raises Violation on rejection."""
+    import vcheck
+    from vcheck import sh
+    kinds = GEN_KINDS.get(pid, GEN_KINDS["default"])
+    mcs, jobs, stats = [], [], {"roots": 0, "paths": 0, "followed": 0, "extra_probes": 0, "witnesses": 0}
+    # stored witnesses of rare states, found by TLC (tools/find_witness.py), replayed on every run
+    wdir = os.path.join(vcheck.VERIF, "scenarios")
+    for fn in sorted(os.listdir(wdir)) if os.path.isdir(wdir) else []:
+        if fn.endswith(".path.txt"):
+            base = fn[:-len(".path.txt")]
+            jobs.append((os.path.join(wdir, fn), os.path.join(wdir, base + ".root.ndjson"), 1, 0, 1, "wit_" + base))
+            stats["witnesses"] += 1
+    with cf.ThreadPoolExecutor(max_workers=3) as ex:
+        futs = {k: ex.submit(gen_generate, k, tier, seed, workdir, bindir) for k in kinds}
+        for k in kinds:
+            roots, outp, res = futs[k].result()
+            mcs.append(res)
+            nsh = 1 if res["distinct"] < 1500 else (4 if tier == "quick" else 12)
+            for sh_i in range(nsh):
+                jobs.append((outp, roots, GEN_PLAN[k][2], sh_i, nsh, "gen_%s_%d" % (k, sh_i)))
+    paths = []
+
+    def do_replay(job):
+        outp, roots, mode, sh_i, nsh, tag = job
+        dst = os.path.join(workdir, "%s_%s.ndjson" % (pid, tag))
+        rc, o = sh([os.path.join(bindir, "replay"), outp, roots, dst, str(mode), str(sh_i), str(nsh)], 1800)
+        if rc != 0:
+            raise ToolError("replay failed (%s): %s" % (tag, o[-800:]))
+        try:
+            st = json.loads(o.strip().splitlines()[-1])
+        except Exception:
+            st = {}
+        return dst, st
+    with cf.ThreadPoolExecutor(max_workers=8) as ex:
+        for dst, st in ex.map(do_replay, jobs):
+            paths.append(dst)
+            for k in ("followed", "extra_probes"):
+                stats[k] += st.get(k, 0)
+    stats["paths"] = sum(m["distinct"] for m in mcs)
+    results = []
+    with cf.ThreadPoolExecutor(max_workers=14) as ex:
+        for r in ex.map(lambda p_: validate_trace(p_, prop or pid), paths):
+            results.append(r)
+    for k, r in enumerate(results):
+        if not r["accepted"]:
+            replay = extract_replay(pid, r["path"], r["rejected_at"], seed, "gen%02d" % k)
+            what = "; ".join("%s line %s: %s" % f for f in r["fails"]) or "event %d has no matching specification action" % r["rejected_at"]
+            try:
+                ev = json.loads(vcheck.read_events(r["path"], r["rejected_at"])[-1])
+                if ev.get("ev") == "panic":
+                    what = "panic in engine call: %s" % ev.get("call")
+            except Exception:
+                pass
+            raise Violation(pid, replay, "[spec->impl replay] " + what)
+    log("[gen] %s: %d spec states explored on 8x8, %d events replayed and validated in %d shards" %
+        (",".join(kinds) or "witnesses only", stats["paths"], sum(r["lines"] for r in results), len(paths)))
+    return results, paths, mcs, stats
+
+
 def trace_property(pid, tier, seed, workdir):
     bindir = build_harness("release")
     mcs = []
@@ -130,6 +226,11 @@ def trace_property(pid, tier, seed, workdir):
         results, paths = run_shards(pid, bindir, shards, seed, tier, workdir)
         for f in futs:
             mcs.append(expect_mc_ok(f.result()))
+    gres, gpaths, gmcs, gstats = gen_stage(pid, tier, seed, workdir, bindir)
+    results_t, paths_t = results, paths
+    results = results + gres
+    paths = paths + gpaths
+    mcs = mcs + gmcs
     pred, rule = NONTRIVIAL[pid]
     dn, total = distinct_nontrivial(paths, pred)
     games = count_games(paths)
@@ -144,7 +245,8 @@ def trace_property(pid, tier, seed, workdir):
         "samples": sample_events(paths[0], 2, lambda e: pred(e, None) if pid not in ("C02",) else e["ev"] == "act") or sample_events(paths[0], 1),
         "spec_models": [{"model": m["name"], "distinct_states": m["distinct"], "states_generated": m["generated"],
                          "depth": m["depth"], "seconds": m["seconds"]} for m in mcs],
-        "trace_shards": [{"driver": s[0], "events": r["lines"], "seconds": r["seconds"]} for s, r in zip(shards, results)],
+        "trace_shards": [{"driver": s[0], "events": r["lines"], "seconds": r["seconds"]} for s, r in zip(shards, results_t)],
+        "spec_to_impl": dict(gstats, events=sum(r["lines"] for r in gres), shards=len(gpaths)),
         "category_counts": sum_counts(results),
         "exhaustive": False,
     }
